@@ -624,7 +624,21 @@ func (x *Exec) parseDec(s string) (*sym.Term, bool) {
 // relaxedUnsat decides pc ∧ extra on the real relaxation with a second solver
 // process; true means proved unsatisfiable.
 func (x *Exec) relaxedUnsat(extra *sym.Term) bool {
-	s, err := solver.New(x.S.Kind, x.S.Timeout)
+	// z3 first, then cvc5 on the same relaxed formula (different nonlinear
+	// real procedures; unsat from either is a proof)
+	for _, kind := range []string{x.S.Kind, "cvc5"} {
+		if x.relaxedUnsatWith(kind, extra) {
+			if kind != x.S.Kind {
+				x.assumptions["some relaxed goals were discharged by cvc5 after z3 answered unknown"] = true
+			}
+			return true
+		}
+	}
+	return false
+}
+
+func (x *Exec) relaxedUnsatWith(kind string, extra *sym.Term) bool {
+	s, err := solver.New(kind, x.S.Timeout)
 	if err != nil {
 		return false
 	}
